@@ -21,6 +21,7 @@ from ..drivers import Harness
 from ..e2 import Choices, explore
 from ..timeline import EPS, run_async, run_sync
 
+UNIT_TIMEOUT = 900  # backstop against a hung unit only; thread-slice subtrees can take minutes on a loaded machine
 LEVEL = "exploration"
 RULE = (
     "RTC machine: numbered external events E(n) whose handler brackets its work with start/end markers (async: suspends "
@@ -291,8 +292,14 @@ PREEMPT = {
 
 def units(tier: str) -> List[Any]:
     us = []
+    from . import c04_preempt as P
+    from ..preempt import split
+
+    core.install_logging()
     for variant, (bq, bt) in PREEMPT.items():
-        us.append(("preempt", variant, bq if tier == "quick" else bt))
+        b = bq if tier == "quick" else bt
+        for root in split(P, variant, b):
+            us.append(("preempt", variant, (b, root)))
     for engine in ENGINES:
         maxlen = (3 if tier == "quick" else 4) if engine == "sync" else (2 if tier == "quick" else 3)
         sc = scripts(maxlen, engine)
@@ -309,26 +316,11 @@ def run_unit(unit):
     res = dict(states=0, transitions=0, executions=0, evaluations=0, distinct=[], violations=[], samples=[], caps=[])
     if engine == "preempt":
         from . import c04_preempt as P
+        from ..preempt import unit_result
 
-        bound = batch
-        results, n, capped = P.explore(variant, bound)
-        res["executions"] += n
-        res["evaluations"] += n
-        if capped:
-            res["caps"].append("max_execs per preemptive variant")
-        outcomes = set()
-        for taken, out in results:
-            outcomes.add(out["key"])
-            res["distinct"].append(hash(("preempt", variant, tuple(out["schedule"]))))
-            for clause, detail in out["bad"]:
-                res["violations"].append(dict(
-                    signature=f"C04|{clause}|sync-threads", clause=clause,
-                    what=f"sync engine, threads {sorted(P.VARIANTS[variant]['producers'])}{' + after-timer' if P.VARIANTS[variant]['timer'] else ''}: {clause}: {detail}; "
-                         f"{out['preemptions']} preemption(s), schedule {[__import__('re').sub(r'::[0-9a-f-]+', '', x) for x in out['schedule']]}",
-                    size=out["preemptions"] * 1000 + len(taken),
-                    replay=dict(engine="preempt", variant=variant, bound=bound, schedule=taken)))
-        res["samples"].append(dict(engine="sync-threads", variant=variant, preemption_bound=bound, schedules=n, distinct_outcomes=len(outcomes)))
-        return res
+        bound, root = batch
+        return unit_result("C04", P, variant, bound,
+                           lambda v: f"threads {sorted(P.VARIANTS[v]['producers'])}{' + after-timer' if P.VARIANTS[v]['timer'] else ''}", root=root)
     for script in batch:
         try:
             results, n, capped = run_one(engine, variant, script)
